@@ -46,6 +46,8 @@ def random_layout(rng: random.Random, need: Optional[Dict[str, set]] = None) -> 
     # now and then the tables start far down the sheet (as after thousands of earlier rows): sheet rows - RP2's transaction ids -
     # then lie in the range of calendar years
     layout["leading_blank_rows"] = rng.choice((0,) * 12 + (3, 60, rng.randint(1985, 2030)))
+    layout["sheet_order_seed"] = rng.choice((None, rng.randint(0, 10**6), rng.randint(0, 10**6)))
+    layout["extra_sheet_at"] = rng.choice((None, None, rng.randint(0, 5)))
     for table, fields in FIELDS.items():
         must = set(MANDATORY[table]) | (need or {}).get(table, set())
         chosen = [f for f in fields if f in must or rng.random() < 0.6]
@@ -112,7 +114,14 @@ def ini_text(
     extra: str = "",
 ) -> str:
     layout = layout or default_layout()
-    lines = ["[general]", f"assets = {', '.join(assets)}", f"exchanges = {', '.join(exchanges)}", f"holders = {', '.join(holders)}", ""]
+    lines = ["[general]", f"assets = {', '.join(assets)}", f"exchanges = {', '.join(exchanges)}", f"holders = {', '.join(holders)}"]
+    import zlib
+
+    if zlib.crc32(repr((sorted(assets), sorted(layout["columns"]["IN"].items()))).encode()) % 3 == 0:
+        # fields the [general] section does not know are ignored; these are named after command-line options and say the opposite
+        # of what the run is given
+        lines += ["allow_negative_balances = false", "accounting_method = lofo", "from_date = 2099-01-01", "to_date = 1971-01-01", "generation_language = xx", "prefix = zz_"]
+    lines.append("")
     for table in ("IN", "OUT", "INTRA"):
         lines.append(f"[{SECTION[table]}]")
         for field, column in sorted(layout["columns"][table].items(), key=lambda kv: kv[1]):
@@ -120,7 +129,17 @@ def ini_text(
         lines.append("")
     if accounting_methods:
         lines.append("[accounting_methods]")
-        for year, method in accounting_methods.items():
+        entries = list(accounting_methods.items())
+        if len(entries) > 1:
+            # the section is a mapping: its entries are listed in ascending, descending or arbitrary order (a function of the entries)
+            import zlib
+
+            seed = zlib.crc32(repr(sorted(entries)).encode())
+            if seed % 3 == 1:
+                entries = sorted(entries, reverse=True)
+            elif seed % 3 == 2:
+                random.Random(seed).shuffle(entries)
+        for year, method in entries:
             lines.append(f"{year} = {method}")
         lines.append("")
     if extra:
@@ -169,7 +188,18 @@ def write_input(
     rng = rng or random.Random(0)
     doc = ezodf.newdoc("ods", path)
     ids: Dict[str, Dict[str, int]] = {}
-    for asset in sheet_order or list(histories):
+    order = list(sheet_order or histories)
+    if sheet_order is None and layout.get("sheet_order_seed") is not None:
+        random.Random(layout["sheet_order_seed"]).shuffle(order)  # asset sheets in any order inside the file
+    extra_sheet_at = layout.get("extra_sheet_at") if sheet_order is None else None
+    for position, asset in enumerate(order):
+        if extra_sheet_at is not None and position == extra_sheet_at % len(order):
+            # a sheet that is no asset's (the user's own notes) among the asset sheets
+            notes = ezodf.Sheet("Notes", size=(3, 2))
+            notes[0, 0].set_value("IN")
+            notes[1, 0].set_value("my notes - not an asset sheet")
+            notes[2, 1].set_value(12345.678)
+            doc.sheets += notes
         hist = histories[asset]
         grid: List[List[Any]] = [[] for _ in range(layout.get("leading_blank_rows", 0))]
         ids[asset] = {}
